@@ -7,6 +7,7 @@ import (
 	"strings"
 
 	"github.com/akrennmair/updog"
+	"github.com/akrennmair/updog/zzverif/flk"
 	"github.com/akrennmair/updog/zzverif/ix"
 	"github.com/akrennmair/updog/zzverif/model"
 	"github.com/akrennmair/updog/zzverif/rt"
@@ -38,13 +39,16 @@ func c08Queries() []c08Query {
 		// redundant nodes below the root (double NOT, single-operand AND/OR, nested same operator): a "simplifying"
 		// evaluation must not write back into the caller's tree
 		{model.And(ax, model.Not(model.Not(model.Eq("b", "y"))), model.Or(ax), model.And(model.And(ax))), []string{"b"}},
+		// a nested operand before a plain comparison (an evaluation that reorders operands must not do it in the caller's slice)
+		{model.And(model.Not(ax), model.Or(model.Eq("b", "z"), model.Eq("b", "y")), model.Eq("b", "y")), nil},
 	}
 }
 
 func c08Rows() [][]model.Row {
 	return [][]model.Row{
 		{{"a": "x", "b": "y", "c": "1"}, {"a": "x", "b": "z", "c": "2"}, {"a": "w", "b": "y", "c": "1"}, {"a": "x"}, {}, {"a": "w", "b": "z", "c": "1"}},
-		{{"a": "x", "b": "q"}, {"a": "k", "b": "y"}, {"a": "x", "b": "y"}, {"b": "y"}},
+		// different numbers of distinct values per column than in index 0
+		{{"a": "x", "b": "q"}, {"a": "k", "b": "y"}, {"a": "x", "b": "y"}, {"b": "y"}, {"a": "m", "b": "y"}, {"a": "n"}},
 	}
 }
 
@@ -54,7 +58,8 @@ type c08Step struct {
 }
 
 type c08Case struct {
-	Steps []c08Step `json:"steps"`
+	Steps  []c08Step `json:"steps"`
+	Edited string    `json:"edited,omitempty"`
 }
 
 func (c c08Case) sig() string {
@@ -88,7 +93,12 @@ func newC08World(ctx *rt.Ctx) *c08World {
 		if err != nil {
 			rt.Harnessf("build: %v", err)
 		}
-		idx, err := ix.Open(p, false, nil)
+		// index 0 is opened with an LRU cache, index 1 without: re-use must not depend on what a cache remembers
+		var cache updog.Cache
+		if len(w.idx) == 0 {
+			cache = updog.NewLRUCache(1 << 20)
+		}
+		idx, err := ix.Open(p, false, cache)
 		if err != nil {
 			rt.Harnessf("open: %v", err)
 		}
@@ -175,6 +185,8 @@ func c08Play(w *c08World, steps []c08Step, onlyLast bool) (viol string, key stri
 }
 
 func c08Run(ctx *rt.Ctx) []*rt.Violation {
+	flk.Sequential(true)
+	defer flk.Sequential(false)
 	w := newC08World(ctx)
 	defer w.close()
 	nq, ni := len(c08Queries()), len(w.idx)
@@ -202,7 +214,7 @@ func c08Run(ctx *rt.Ctx) []*rt.Violation {
 				ctx.Cov.Add("transitions", 1)
 				ctx.Cov.Add("traces_validated_against_impl", 1)
 				if viol != "" {
-					c := c08Case{steps}
+					c := c08Case{Steps: steps}
 					vs = append(vs, rt.NewViolation("C08", "reuse", c.sig(), c, "%s", viol))
 					break
 				}
@@ -210,7 +222,7 @@ func c08Run(ctx *rt.Ctx) []*rt.Violation {
 					seen[key] = true
 					ctx.Cov.Add("states", 1)
 					next = append(next, steps)
-					ctx.Cov.Sample(4, map[string]any{"history": c08Case{steps}.sig(), "private_state": key})
+					ctx.Cov.Sample(4, map[string]any{"history": c08Case{Steps: steps}.sig(), "private_state": key})
 				}
 			}
 			if len(vs) > 0 {
@@ -241,7 +253,7 @@ func c08Run(ctx *rt.Ctx) []*rt.Violation {
 				ctx.Cov.Add("unmerged_sequences", 1)
 				ctx.Cov.Add("traces_validated_against_impl", 1)
 				if viol, _ := c08Play(w, steps, true); viol != "" {
-					c := c08Case{steps}
+					c := c08Case{Steps: steps}
 					vs = append(vs, rt.NewViolation("C08", "reuse", c.sig(), c, "%s", viol))
 					return false
 				}
@@ -261,11 +273,66 @@ func c08Run(ctx *rt.Ctx) []*rt.Violation {
 		}
 		rec()
 	}
+	// (3) a Query whose expression is edited in place by the caller between executions behaves like a fresh query of the
+	// new content (on the cached and on the uncached index)
+	if len(vs) == 0 {
+		if v := c08Edited(ctx, w); v != nil {
+			vs = append(vs, v)
+		}
+	}
 	ctx.Cov.Note("unmerged_depth", maxd)
 	ctx.Cov.Note("alphabet", fmt.Sprintf("%d Query values x %d indexes with different schemas = %d operations", nq, ni, len(alpha)))
 	ctx.Cov.Note("rule", "BFS to fixpoint over execution histories, states merged on the private (non-Expr) fields of all Query values; plus every sequence up to unmerged_depth without merging; each execution compared with a freshly constructed equal query executed alone, Expr/GroupBy compared with pristine copies")
 	ctx.Assumef("what a later execution returns depends only on the non-Expr fields of the Query values (states are merged on them); the unmerged enumeration cross-checks this up to its depth")
 	return vs
+}
+
+func c08Edited(ctx *rt.Ctx, w *c08World) *rt.Violation {
+	vals := []string{"x", "w", "k", "zz"}
+	for ii, idx := range w.idx {
+		for shape := 0; shape < 3; shape++ {
+			for leaf := 0; leaf < 2; leaf++ {
+				for _, v1 := range vals {
+					for _, v2 := range vals {
+						l := []*updog.ExprEqual{{Column: "a", Value: "x"}, {Column: "b", Value: "y"}}
+						var e updog.Expression
+						mk := func(a, b *model.Expr) *model.Expr {
+							switch shape {
+							case 0:
+								return model.And(a, b)
+							case 1:
+								return model.Or(model.Not(a), b)
+							}
+							return model.Not(model.Or(model.And(a), b))
+						}
+						switch shape {
+						case 0:
+							e = &updog.ExprAnd{Exprs: []updog.Expression{l[0], l[1]}}
+						case 1:
+							e = &updog.ExprOr{Exprs: []updog.Expression{&updog.ExprNot{Expr: l[0]}, l[1]}}
+						default:
+							e = &updog.ExprNot{Expr: &updog.ExprOr{Exprs: []updog.Expression{&updog.ExprAnd{Exprs: []updog.Expression{l[0]}}, l[1]}}}
+						}
+						q := &updog.Query{Expr: e, GroupBy: []string{"b"}}
+						safeExec(idx, q)
+						for step, v := range []string{v1, v2} {
+							l[leaf].Value = v
+							got, _ := safeExec(idx, q)
+							m := []*model.Expr{model.Eq("a", l[0].Value), model.Eq("b", l[1].Value)}
+							want, _ := safeExec(idx, &updog.Query{Expr: mk(m[0], m[1]).Updog(), GroupBy: []string{"b"}})
+							ctx.Cov.Add("edited_query_executions", 1)
+							ctx.Cov.Add("traces_validated_against_impl", 1)
+							if got != want {
+								c := c08Case{Edited: fmt.Sprintf("index=%d shape=%d leaf=%d values=%s,%s step=%d", ii, shape, leaf, v1, v2, step+1)}
+								return rt.NewViolation("C08", "edited", "edited "+c.Edited, c, "a Query was executed, one comparison value was changed to %q by the caller and it was executed again on index %d: got %s, a freshly constructed equal query returns %s", v, ii, got, want)
+							}
+						}
+					}
+				}
+			}
+		}
+	}
+	return nil
 }
 
 func c08Replay(ctx *rt.Ctx, v *rt.Violation) *rt.Violation {
@@ -275,9 +342,12 @@ func c08Replay(ctx *rt.Ctx, v *rt.Violation) *rt.Violation {
 	}
 	w := newC08World(ctx)
 	defer w.close()
+	if c.Edited != "" {
+		return c08Edited(ctx, w)
+	}
 	for n := 1; n <= len(c.Steps); n++ {
 		if viol, _ := c08Play(w, c.Steps[:n], true); viol != "" {
-			cc := c08Case{c.Steps[:n]}
+			cc := c08Case{Steps: c.Steps[:n]}
 			return rt.NewViolation("C08", "reuse", cc.sig(), cc, "%s", viol)
 		}
 	}
